@@ -50,7 +50,11 @@ func c01Case(c *ctx, val interface{}, label string, seed uint64) bool {
 		decCorr(c, tmC, bs)
 	}
 	if do != oOK {
-		c.fail("decode of the encoder's own output fails", in, do.String()+": "+msg+" bytes="+hx(trunc(bs, 120)), "")
+		cls := ""
+		if c16F1Explains(val, want) {
+			cls = "C16-F1-dynamic-types-in-second-instance-of-a-visited-type"
+		}
+		c.fail("decode of the encoder's own output fails", in, do.String()+": "+msg+" bytes="+hx(trunc(bs, 120)), cls)
 		return false
 	}
 	got := canonTop(dec)
@@ -128,10 +132,10 @@ func runC01(c *ctx) {
 			val := genValue(t, seed, budget, maxLen)
 			c.eval(fmt.Sprint(t.String(), "#", seed))
 			c.dist["type:"+t.String()]++
-			before := len(c.failures) + c.dist["failures_dropped"]
+			before := len(c.failures)
 			if c01Case(c, val, t.String(), seed) {
 				okc++
-			} else if len(c.failures)+c.dist["failures_dropped"] > before && len(c.failures) > 0 {
+			} else if len(c.failures) > before {
 				if m, ok := c.failures[len(c.failures)-1].Input.(map[string]interface{}); ok {
 					m["budget"], m["maxlen"] = budget, maxLen
 				}
@@ -164,7 +168,83 @@ func c01Class(val interface{}, want, got string) string {
 	if t != nil && strings.Contains(t.String(), "Collide") {
 		return "C01-F2-ptr-slice-and-value-slice-share-wire-name"
 	}
+	// C16-F1: ExtractTypeNameMap does not descend into a second value of a type it has already
+	// seen, so types that occur only there are missing from the maps; the round trip is exact as
+	// soon as the maps are completed by extracting from every interface-held value on its own
+	if c16F1Explains(val, want) {
+		return "C16-F1-dynamic-types-in-second-instance-of-a-visited-type"
+	}
 	return ""
+}
+
+// every value held in an interface, list element or map entry somewhere inside v (each pointer once)
+func forEachInner(v reflect.Value, seen map[uintptr]bool, f func(reflect.Value)) {
+	if !v.IsValid() {
+		return
+	}
+	switch v.Kind() {
+	case reflect.Interface:
+		if !v.IsNil() {
+			f(v.Elem())
+			forEachInner(v.Elem(), seen, f)
+		}
+	case reflect.Ptr:
+		if !v.IsNil() && !seen[v.Pointer()] {
+			seen[v.Pointer()] = true
+			forEachInner(v.Elem(), seen, f)
+		}
+	case reflect.Struct:
+		for i := 0; i < v.NumField(); i++ {
+			forEachInner(v.Field(i), seen, f)
+		}
+	case reflect.Slice, reflect.Array:
+		for i := 0; i < v.Len(); i++ {
+			forEachInner(v.Index(i), seen, f)
+		}
+	case reflect.Map:
+		for _, k := range v.MapKeys() {
+			forEachInner(k, seen, f)
+			forEachInner(v.MapIndex(k), seen, f)
+		}
+	}
+}
+
+func c16F1Explains(val interface{}, want string) bool {
+	tm, nm, ok := safeExtract(val)
+	if !ok {
+		return false
+	}
+	n0 := len(tm)
+	forEachInner(reflect.ValueOf(val), map[uintptr]bool{}, func(x reflect.Value) {
+		if !x.CanInterface() {
+			return
+		}
+		if t2, n2, ok := safeExtract(x.Interface()); ok {
+			for k, v := range t2 {
+				if _, has := tm[k]; !has {
+					tm[k] = v
+				}
+			}
+			for k, v := range n2 {
+				if _, has := nm[k]; !has {
+					nm[k] = v
+				}
+			}
+		}
+	})
+	if len(tm) == n0 {
+		return false
+	}
+	var dec interface{}
+	o, _ := guard(func() error {
+		bs, err := hessian.ToBytes(val, nm)
+		if err != nil {
+			return err
+		}
+		dec, err = hessian.ToObject(bs, tm)
+		return err
+	})
+	return o == oOK && canonTop(dec) == want
 }
 
 func safeExtract(val interface{}) (tm map[string]reflect.Type, nm map[string]string, ok bool) {
